@@ -38,7 +38,7 @@ OPS = [
 def fn_units():
     """function path -> (file, [units in which it is verified], first line, last line)"""
     out = {}
-    for u in ['conn', 'request', 'client', 'response']:
+    for u in ['conn', 'request', 'client', 'response', 'router', 'headers']:
         g = UnitGen(SRC, os.path.join(VERIF, 'units')).generate(u)
         for fid, info in g.fns.items():
             if info['mode'] != 'verify':
@@ -85,7 +85,7 @@ def run_one(args):
                 verdict = 'killed'
                 detail = sorted(set(f['clause'] for f in r.failures if f.get('role') != 'derived'))[:3]
                 break
-            if r.status == 'undecided':
+            if r.status in ('undecided', 'partial'):
                 verdict = 'undecided'
                 detail = [r.undecided[0][:100]] if r.undecided else []
         for u in meta['units']:
